@@ -106,6 +106,7 @@ type Value struct {
 	Vs   []Value `json:"vs,omitempty"`
 	G    string  `json:"g,omitempty"`
 	Kind string  `json:"kind,omitempty"`
+	U    *Value  `json:"u,omitempty"` // t = "named": the underlying scalar of a defined / sized Go type
 	// objects (C20)
 	Shape string  `json:"shape,omitempty"`
 	Ptr   bool    `json:"ptr,omitempty"`
@@ -152,6 +153,8 @@ func toGo(v Value) interface{} {
 		return make(chan int)
 	case "null":
 		return nil
+	case "named":
+		return namedScalar(v)
 	case "bool":
 		return v.B
 	case "int":
@@ -458,6 +461,47 @@ func resolvePads(tp map[string][]Piece, pads []Pad) []Pad {
 }
 
 type namedString string
+
+// defined and sized Go types with a scalar underlying type: the engine sees them only through reflection
+type (
+	flagT  bool
+	levelT int
+	ratioT float64
+	labelT string
+)
+
+func namedScalar(v Value) interface{} {
+	if v.U == nil {
+		return nil
+	}
+	u := toGo(*v.U)
+	switch x := u.(type) {
+	case bool:
+		return flagT(x)
+	case int:
+		switch v.Kind {
+		case "i8":
+			return int8(x)
+		case "i64":
+			return int64(x)
+		case "u16":
+			return uint16(x)
+		case "u64":
+			return uint64(x)
+		case "f32":
+			return float32(x)
+		}
+		return levelT(x)
+	case float64:
+		if v.Kind == "f32" {
+			return float32(x)
+		}
+		return ratioT(x)
+	case string:
+		return labelT(x)
+	}
+	return u
+}
 
 type stringerValue struct{ s string }
 
